@@ -1,0 +1,145 @@
+//! Verification hooks (feature `verif`, off by default).
+//!
+//! Nothing in this module is compiled unless the crate is built with `--features verif`.
+//! It re-exports the internal components an external verification harness drives directly,
+//! and provides an event recorder with a fail-point in front of persistent writes.
+#![allow(missing_docs)]
+
+use std::error::Error;
+use std::sync::atomic::{AtomicBool, AtomicI64, AtomicU64, Ordering};
+use std::sync::Mutex;
+
+pub use crate::api::types::{
+    decode_bytes_from_inscription_data, select_bytes, Base64Bytes, EthCall, GetLogsFilter,
+    PrecompileData, RawBytes,
+};
+pub use crate::api::INDEXER_METHODS;
+pub use crate::db::{BlockCachedDatabase, BlockDatabase, BlockHistoryCache, BlockHistoryCacheData};
+pub use crate::db::types::*;
+pub use crate::db::Brc20ProgDatabase;
+pub use crate::engine::{get_evm_address_from_pkscript, BRC20ProgEngine, TxInfo};
+pub use crate::global::database::{validate_config_database, ConfigDatabase};
+pub use crate::global::{
+    validate_config, Brc20ProgConfig, SharedData, CALLDATA_LIMIT, CONFIG, GAS_PER_BIP_322_VERIFY,
+    GAS_PER_BITCOIN_RPC_CALL, GAS_PER_BYTE, GAS_PER_LOCKED_PKSCRIPT, GAS_PER_OP_RETURN_TX_ID,
+    INDEXER_ADDRESS, INVALID_ADDRESS, MAX_BLOCK_SIZE, MAX_FUTURE_TRANSACTION_BLOCKS,
+    MAX_FUTURE_TRANSACTION_NONCES, MAX_REORG_HISTORY_SIZE,
+};
+pub use crate::server::verif_rpc_methods;
+
+/// DB_VERSION / PROTOCOL_VERSION as the crate sees them.
+pub fn versions() -> (u32, u32) {
+    (*crate::global::DB_VERSION, *crate::global::PROTOCOL_VERSION)
+}
+
+/// Replace the process-wide configuration (what `start()` does first).
+pub fn set_config(config: Brc20ProgConfig) {
+    CONFIG.write_fn_unchecked(|value| {
+        *value = config.clone();
+    });
+}
+
+/// One recorded event.
+#[derive(Clone, Debug, PartialEq, Eq)]
+pub enum Ev {
+    /// versioned table: cache-level set (Some) / unset (None) with its block stamp
+    VSet { table: String, stamp: u64, key: Vec<u8>, val: Option<Vec<u8>> },
+    /// versioned table: persistent write on the latest-value db (`hist == false`) or the
+    /// history db (`hist == true`); `val == None` is a delete
+    VPut { table: String, hist: bool, key: Vec<u8>, val: Option<Vec<u8>> },
+    VCommit { table: String, block: u64 },
+    VReorg { table: String, block: u64 },
+    VClear { table: String },
+    /// block table events
+    BSet { table: String, key: u64, val: Vec<u8> },
+    BPut { table: String, key: u64, val: Option<Vec<u8>> },
+    BFlush { table: String },
+    BCommit { table: String },
+    BReorg { table: String, block: u64 },
+    BClear { table: String },
+    /// config table: write-through put, flush
+    CPut { table: String, key: String, val: String },
+    CFlush { table: String },
+    /// SharedData lock events: `write`, acquire (true) / release (false), lock address, type name, caller
+    Lock { id: usize, ty: &'static str, write: bool, acquire: bool, file: &'static str, line: u32, thread: u64 },
+    /// free-form marker written by the harness or by engine-level hooks
+    Note(String),
+}
+
+static ENABLED: AtomicBool = AtomicBool::new(false);
+static LOCKS_ENABLED: AtomicBool = AtomicBool::new(false);
+static CRASHED: AtomicBool = AtomicBool::new(false);
+static FAIL_AT: AtomicI64 = AtomicI64::new(-1);
+static WRITES: AtomicU64 = AtomicU64::new(0);
+static LOG: Mutex<Vec<Ev>> = Mutex::new(Vec::new());
+
+/// Start (or stop) recording store events.
+pub fn set_recording(on: bool) {
+    ENABLED.store(on, Ordering::SeqCst);
+}
+
+/// Start (or stop) recording lock events.
+pub fn set_lock_recording(on: bool) {
+    LOCKS_ENABLED.store(on, Ordering::SeqCst);
+}
+
+pub fn lock_recording() -> bool {
+    LOCKS_ENABLED.load(Ordering::Relaxed)
+}
+
+/// Take the recorded events.
+pub fn drain() -> Vec<Ev> {
+    let mut guard = LOG.lock().unwrap_or_else(|e| e.into_inner());
+    std::mem::take(&mut *guard)
+}
+
+pub fn record(ev: Ev) {
+    if ENABLED.load(Ordering::Relaxed) {
+        LOG.lock().unwrap_or_else(|e| e.into_inner()).push(ev);
+    }
+}
+
+pub fn record_lock(ev: Ev) {
+    if LOCKS_ENABLED.load(Ordering::Relaxed) {
+        LOG.lock().unwrap_or_else(|e| e.into_inner()).push(ev);
+    }
+}
+
+/// Number of persistent writes issued since the last `reset_writes`.
+pub fn writes() -> u64 {
+    WRITES.load(Ordering::SeqCst)
+}
+
+/// Arm the fail-point: the persistent write with 0-based index `k` (counted from now) and
+/// every later one fail with an error *instead of* being performed. `None` disarms.
+pub fn arm_failpoint(k: Option<u64>) {
+    WRITES.store(0, Ordering::SeqCst);
+    CRASHED.store(false, Ordering::SeqCst);
+    FAIL_AT.store(k.map(|x| x as i64).unwrap_or(-1), Ordering::SeqCst);
+}
+
+pub fn crashed() -> bool {
+    CRASHED.load(Ordering::SeqCst)
+}
+
+/// Called in front of every persistent write (put / delete / flush).
+pub fn before_persistent_write(ev: Ev) -> Result<(), Box<dyn Error>> {
+    if CRASHED.load(Ordering::SeqCst) {
+        return Err("verif: process crashed (injected)".into());
+    }
+    let idx = WRITES.fetch_add(1, Ordering::SeqCst) as i64;
+    let fail_at = FAIL_AT.load(Ordering::SeqCst);
+    if fail_at >= 0 && idx >= fail_at {
+        CRASHED.store(true, Ordering::SeqCst);
+        return Err("verif: process crashed (injected)".into());
+    }
+    record(ev);
+    Ok(())
+}
+
+pub fn thread_id() -> u64 {
+    use std::hash::{Hash, Hasher};
+    let mut h = std::collections::hash_map::DefaultHasher::new();
+    std::thread::current().id().hash(&mut h);
+    h.finish()
+}
